@@ -1,6 +1,6 @@
 From Coq Require Import ZArith List Bool Lia.
 From Tdda Require Import Base.Sexp Base.Str Rexpy.Chars RefTest.CheckStrings RefTest.CheckStringsProofs
-     RefTest.Artefacts RefTest.ArtefactsProofs Gentest.Script.
+     RefTest.Artefacts RefTest.ArtefactsProofs Rexpy.DecProofs Gentest.Script.
 Import ListNotations.
 Open Scope Z_scope.
 
@@ -209,34 +209,6 @@ Proof.
 Qed.
 
 (* ------------------------------------------------------------------ naming never gives up *)
-(* decimal rendering is injective on the non-negative integers: reading the digits back gives the number *)
-Definition undec (s : str) : Z := fold_left (fun a c => a * 10 + (c - 48)) s 0.
-
-Lemma dec_digits_undec fuel : forall n acc, 0 <= n < 10 ^ Z.of_nat fuel ->
-  fold_left (fun a c => a * 10 + (c - 48)) (dec_digits fuel n acc) 0 = fold_left (fun a c => a * 10 + (c - 48)) acc n.
-Proof.
-  induction fuel as [|f IH]; intros n acc Hn.
-  - cbn [dec_digits]. change (10 ^ Z.of_nat 0) with 1 in Hn. replace n with 0 by lia. reflexivity.
-  - cbn [dec_digits]. destruct (Z.ltb_spec n 10) as [Hlt|Hge].
-    + cbn [fold_left]. f_equal. rewrite Z.mod_small by lia. lia.
-    + rewrite IH.
-      * cbn [fold_left]. f_equal. pose proof (Z.div_mod n 10 ltac:(lia)). lia.
-      * rewrite Nat2Z.inj_succ, Z.pow_succ_r in Hn by lia. split; [apply Z.div_pos; lia|]. apply Z.div_lt_upper_bound; lia.
-Qed.
-
-Lemma undec_dec n : 0 <= n -> undec (dec_of_Z n) = n.
-Proof.
-  intro Hn. unfold undec, dec_of_Z. replace (Z.ltb n 0) with false by (symmetry; apply Z.ltb_ge; lia).
-  rewrite dec_digits_undec; [reflexivity|]. split; [exact Hn|].
-  destruct (Z.eq_dec n 0) as [->|Hnz]; [cbn; lia|].
-  rewrite Nat2Z.inj_succ, Z2Nat.id by (apply Z.log2_nonneg).
-  pose proof (Z.log2_spec n ltac:(lia)) as [_ Hu].
-  eapply Z.lt_le_trans; [exact Hu|]. apply Z.pow_le_mono_l. lia.
-Qed.
-
-Lemma dec_of_Z_inj a b : 0 <= a -> 0 <= b -> dec_of_Z a = dec_of_Z b -> a = b.
-Proof. intros Ha Hb H. rewrite <- (undec_dec a Ha), <- (undec_dec b Hb), H. reflexivity. Qed.
-
 Lemma map_NoDup_in {A B} (f : A -> B) l : (forall x y, In x l -> In y l -> f x = f y -> x = y) -> NoDup l -> NoDup (map f l).
 Proof.
   induction l as [|a l IH]; intros Hinj Hnd; cbn [map]; [constructor|]. inversion Hnd; subst. constructor.
